@@ -7,13 +7,15 @@
   (`reqs : Nat → List Req`), ANY number of transactions per thread, ANY schedule (`sched : List Nat`, pre-emption before
   every operation of `execute`, including between a lock acquisition and what follows, between the two writes of a
   frame and between the check and the open of `connect`), replies of any length and latency, the client connected or
-  not when the threads start (`connected : Bool`).
+  not when the threads start (`connected : Bool`), every connection attempt accepted or refused as the scripted world
+  says (`cok : Nat → Bool`, the fate of the k-th `create_connection`).
   The lock discipline is a parameter.  The theorems hold for `scope = .whole`: the client lock
   (`with self._connect_lock:` in `BaseModbusClient.execute`, around the connect check/open AND the call of the
   manager) with the manager lock (`with self._transaction_lock:` = body of `ModbusTransactionManager.execute`) nested
   inside; `generated_lock_scope` says that this is what the source has.  The counterexamples show that the other
   disciplines do not serialise: `connectOutside` (the code before the repair of finding connect-outside-lock: connect
-  before any lock is taken), `none`, one manager lock per unit id, a send-only lock.
+  before any lock is taken), `none`, one manager lock per unit id, a send-only lock, and `leakOnFail` (the client lock
+  is not given back when the connect fails: `lock_leak_counterexample`, a deadlock).
 -/
 import Pymodbus.Lemmas.SchedConn
 import Pymodbus.Generated.Tables
@@ -52,16 +54,16 @@ theorem source_scope_is_whole : sourceScope.isSome = true ∧ ∀ sc, sourceScop
   rw [h]
   exact ⟨rfl, fun sc e => by cases e; rfl⟩
 
-/-! ### the property under the shipped discipline, for ANY client (connected or not when the threads start) -/
+/-! ### the property under the shipped discipline, for ANY client and ANY fate of the connection attempts -/
 
 /-- `mutual_exclusion`: in every reachable state at most one thread is between its send and the end of its receive -/
 theorem mutual_exclusion (scope : LockScope) (hs : scope = .whole) (reqs : Nat → List Req) (connected : Bool)
-    (sched : List Nat) : Spec.Exclusive (runSched scope (init reqs connected) sched) := by
+    (cok : Nat → Bool) (sched : List Nat) : Spec.Exclusive (runSched scope (init reqs connected cok) sched) := by
   subst hs
-  have hi := inv_reachable reqs connected sched
+  have hi := inv_reachable reqs connected cok sched
   intro t u ht hu
-  have key : ∀ v, ((runSched .whole (init reqs connected) sched).threads v).inFlight = true →
-      (runSched .whole (init reqs connected) sched).locks 0 = some (v, 1) := by
+  have key : ∀ v, ((runSched .whole (init reqs connected cok) sched).threads v).inFlight = true →
+      (runSched .whole (init reqs connected cok) sched).locks 0 = some (v, 1) := by
     intro v hv
     cases outside_or_holder hi v with
     | inr h => exact h.1
@@ -83,6 +85,7 @@ theorem istage_wire {sh : Shared} {t : Nat} {th : Thread} (h : IStage sh t th) :
     rw [hw2]; exact pairs_snoc1 w _ hw1 rfl
   | tid k h q => exact pairs_contiguous _ q.2.2.2
   | connect k h q => exact pairs_contiguous _ q.2.2.2
+  | flush k h q => exact pairs_contiguous _ q.2.2.2
   | send1 k h q => exact pairs_contiguous _ q.2.2.2
   | waiting k h hf hp hs hb hw => exact pairs_contiguous _ hw
   | recv2 h hh hp hs hb hw => exact pairs_contiguous _ hw
@@ -101,54 +104,82 @@ theorem stage_wire {sh : Shared} {sock : Option Nat} {nc : Nat} {m : Option (Nat
 /-- `frames_contiguous`: the chunks on the transport are whole frames, (header, rest) by one thread to one
     connection with nothing of another thread in between -/
 theorem frames_contiguous (scope : LockScope) (hs : scope = .whole) (reqs : Nat → List Req) (connected : Bool)
-    (sched : List Nat) : Spec.contiguous (runSched scope (init reqs connected) sched).wire = true := by
+    (cok : Nat → Bool) (sched : List Nat) :
+    Spec.contiguous (runSched scope (init reqs connected cok) sched).wire = true := by
   subst hs
-  have hi := inv_reachable reqs connected sched
-  cases hl : (runSched .whole (init reqs connected) sched).locks 0 with
+  have hi := inv_reachable reqs connected cok sched
+  cases hl : (runSched .whole (init reqs connected cok) sched).locks 0 with
   | none => exact pairs_contiguous _ (hi.free hl).1.2.2.2
   | some p => exact stage_wire (hi.held p.1 p.2 hl).2.1
 
-/-- `own_reply`: every completed transaction returned the reply built for its own request — the caller's transaction
-    id, its unit, the registers (or exception) the peer sends for exactly that request; cold client included -/
-theorem own_reply (scope : LockScope) (hs : scope = .whole) (reqs : Nat → List Req) (connected : Bool)
-    (sched : List Nat) (t : Nat) :
-    ∀ x ∈ ((runSched scope (init reqs connected) sched).threads t).results, Spec.OwnReply x := by
+/-- `own_reply_or_refused`: every completed call returned the reply built for its own request (the caller's
+    transaction id, its unit, the registers or exception the peer sends for exactly that request) or — only if some
+    connection attempt was refused — raised the connection exception.  Never somebody else's reply, never an error
+    object. -/
+theorem own_reply_or_refused (scope : LockScope) (hs : scope = .whole) (reqs : Nat → List Req) (connected : Bool)
+    (cok : Nat → Bool) (sched : List Nat) (t : Nat) :
+    ∀ x ∈ ((runSched scope (init reqs connected cok) sched).threads t).results, Spec.Answered cok x := by
   subst hs
-  exact ((inv_reachable reqs connected sched).ok t).served
+  have h := ((inv_reachable reqs connected cok sched).ok t).served
+  rw [run_connOk] at h
+  exact h
+
+/-- `own_reply`: when every connection attempt succeeds, every completed call returned the reply to its own request;
+    cold client included -/
+theorem own_reply (scope : LockScope) (hs : scope = .whole) (reqs : Nat → List Req) (connected : Bool)
+    (cok : Nat → Bool) (hall : ∀ k, cok k = true) (sched : List Nat) (t : Nat) :
+    ∀ x ∈ ((runSched scope (init reqs connected cok) sched).threads t).results, Spec.OwnReply x := by
+  intro x hx
+  cases own_reply_or_refused scope hs reqs connected cok sched t x hx with
+  | inl h => exact h
+  | inr h =>
+    obtain ⟨_, k, hk⟩ := h
+    rw [hall k] at hk
+    cases hk
 
 /-- no result lost or duplicated: the completed transactions of a thread are, in order, an initial part of the
     requests it was given (one result each) -/
 theorem results_in_request_order (scope : LockScope) (hs : scope = .whole) (reqs : Nat → List Req)
-    (connected : Bool) (sched : List Nat) (t : Nat) :
-    ((runSched scope (init reqs connected) sched).threads t).results.map (·.1) <+: reqs t := by
+    (connected : Bool) (cok : Nat → Bool) (sched : List Nat) (t : Nat) :
+    ((runSched scope (init reqs connected cok) sched).threads t).results.map (·.1) <+: reqs t := by
   subst hs
-  have h := ((inv_reachable reqs connected sched).ok t).conserve
+  have h := ((inv_reachable reqs connected cok sched).ok t).conserve
   unfold Conserved at h
   rw [List.append_assoc] at h
   exact ⟨_, h⟩
 
-/-- a finished thread has one own reply per request, in order: nothing lost, duplicated or swapped -/
-theorem finished_all_served (scope : LockScope) (hs : scope = .whole) (reqs : Nat → List Req)
-    (connected : Bool) (sched : List Nat) (t : Nat)
-    (hd : ((runSched scope (init reqs connected) sched).threads t).done = true) :
-    Spec.AllServed reqs (runSched scope (init reqs connected) sched) t := by
-  refine ⟨?_, own_reply scope hs reqs connected sched t⟩
+/-- a finished thread has exactly one result per request, in order, each its own reply or the connection exception -/
+theorem finished_all_answered (scope : LockScope) (hs : scope = .whole) (reqs : Nat → List Req)
+    (connected : Bool) (cok : Nat → Bool) (sched : List Nat) (t : Nat)
+    (hd : ((runSched scope (init reqs connected cok) sched).threads t).done = true) :
+    ((runSched scope (init reqs connected cok) sched).threads t).results.map (·.1) = reqs t ∧
+    ∀ x ∈ ((runSched scope (init reqs connected cok) sched).threads t).results, Spec.Answered cok x := by
+  refine ⟨?_, own_reply_or_refused scope hs reqs connected cok sched t⟩
   subst hs
-  have h := ((inv_reachable reqs connected sched).ok t).conserve
+  have h := ((inv_reachable reqs connected cok sched).ok t).conserve
   unfold Conserved at h
   simp only [Thread.done, Bool.and_eq_true, List.isEmpty_iff] at hd
   simpa [curPending, hd.1, hd.2] using h
 
-/-- only one connection ever exists: `client.socket` is connection 0 or (before the first connect) nothing; nobody
-    ever replaces it -/
+/-- … and when every connection attempt succeeds: one own reply per request, in order — nothing lost, duplicated or
+    swapped -/
+theorem finished_all_served (scope : LockScope) (hs : scope = .whole) (reqs : Nat → List Req)
+    (connected : Bool) (cok : Nat → Bool) (hall : ∀ k, cok k = true) (sched : List Nat) (t : Nat)
+    (hd : ((runSched scope (init reqs connected cok) sched).threads t).done = true) :
+    Spec.AllServed reqs (runSched scope (init reqs connected cok) sched) t :=
+  ⟨(finished_all_answered scope hs reqs connected cok sched t hd).1,
+    own_reply scope hs reqs connected cok hall sched t⟩
+
+/-- only one connection ever exists: `client.socket` is connection 0 or (before the first successful connect)
+    nothing; nobody ever replaces it, no transaction ever closes it -/
 theorem connection_never_replaced (scope : LockScope) (hs : scope = .whole) (reqs : Nat → List Req)
-    (connected : Bool) (sched : List Nat) :
-    (runSched scope (init reqs connected) sched).sock = some 0 ∨
-    ((runSched scope (init reqs connected) sched).sock = none ∧
-      (runSched scope (init reqs connected) sched).nextConn = 0) := by
+    (connected : Bool) (cok : Nat → Bool) (sched : List Nat) :
+    (runSched scope (init reqs connected cok) sched).sock = some 0 ∨
+    ((runSched scope (init reqs connected cok) sched).sock = none ∧
+      (runSched scope (init reqs connected cok) sched).nextConn = 0) := by
   subst hs
-  have hi := inv_reachable reqs connected sched
-  cases hl : (runSched .whole (init reqs connected) sched).locks 0 with
+  have hi := inv_reachable reqs connected cok sched
+  cases hl : (runSched .whole (init reqs connected cok) sched).locks 0 with
   | none => exact (hi.free hl).2.1
   | some p =>
     have hst := (hi.held p.1 p.2 hl).2.1
@@ -157,15 +188,16 @@ theorem connection_never_replaced (scope : LockScope) (hs : scope = .whole) (req
     | opening k h q hso hm => exact Or.inr hso
     | acq k h q hso hm => exact Or.inl hso
     | inner hso hm st => exact Or.inl hso
-    | crel h q hso hm => exact Or.inl hso
+    | crel h q hso hm => exact hso
 
-/-- `no_deadlock` (1): in every reachable state, if some thread has not finished then some thread can move -/
+/-- `no_deadlock` (1): in every reachable state, if some thread has not finished then some thread can move
+    (whatever connection attempts were refused) -/
 theorem no_deadlock (scope : LockScope) (hs : scope = .whole) (reqs : Nat → List Req) (connected : Bool)
-    (sched : List Nat) (t : Nat)
-    (hnd : ((runSched scope (init reqs connected) sched).threads t).done = false) :
-    ∃ u, runnable scope (runSched scope (init reqs connected) sched) u = true := by
+    (cok : Nat → Bool) (sched : List Nat) (t : Nat)
+    (hnd : ((runSched scope (init reqs connected cok) sched).threads t).done = false) :
+    ∃ u, runnable scope (runSched scope (init reqs connected cok) sched) u = true := by
   subst hs
-  exact exists_runnable (inv_reachable reqs connected sched) t hnd
+  exact exists_runnable (inv_reachable reqs connected cok sched) t hnd
 
 /-- `no_deadlock` (2): every move is progress — a thread that can move has strictly less left to do afterwards, and
     nobody else's remaining work changes (any lock discipline) -/
@@ -176,16 +208,18 @@ theorem every_move_is_progress (scope : LockScope) (s : State) (t : Nat) (hr : r
 
 /-- `no_deadlock` (3), fair schedules: if the schedule consists of `k` rounds, every round gives each of the `n`
     threads at least one turn (in any order, with any repetitions) and `k` is at least the total number of operations
-    to perform, then every thread finishes, with one own reply per request in request order -/
+    to perform, then every thread finishes: every request has ended with the caller's own reply or (a refused
+    connection) the connection exception -/
 theorem fair_schedule_finishes (scope : LockScope) (hs : scope = .whole) (reqs : Nat → List Req) (connected : Bool)
-    (n : Nat) (hn : ∀ t, n ≤ t → reqs t = []) (rounds : List (List Nat)) (hc : ∀ r ∈ rounds, Covers n r)
-    (hk : totalWork scope (init reqs connected) n ≤ rounds.length) (t : Nat) :
-    ((runSched scope (init reqs connected) rounds.flatten).threads t).done = true ∧
-    Spec.AllServed reqs (runSched scope (init reqs connected) rounds.flatten) t := by
+    (cok : Nat → Bool) (n : Nat) (hn : ∀ t, n ≤ t → reqs t = []) (rounds : List (List Nat))
+    (hc : ∀ r ∈ rounds, Covers n r) (hk : totalWork scope (init reqs connected cok) n ≤ rounds.length) (t : Nat) :
+    ((runSched scope (init reqs connected cok) rounds.flatten).threads t).done = true ∧
+    ((runSched scope (init reqs connected cok) rounds.flatten).threads t).results.map (·.1) = reqs t ∧
+    ∀ x ∈ ((runSched scope (init reqs connected cok) rounds.flatten).threads t).results, Spec.Answered cok x := by
   subst hs
-  have hd := fair_rounds_finish (inv_init reqs connected) n
+  have hd := fair_rounds_finish (inv_init reqs connected cok) n
     (fun v hv => by simp [init, Thread.done, hn v hv]) rounds hc hk t
-  exact ⟨hd, finished_all_served .whole rfl reqs connected _ t hd⟩
+  exact ⟨hd, finished_all_answered .whole rfl reqs connected cok _ t hd⟩
 
 /-- re-entrant acquisition by the holder never blocks (both locks are `RLock`s): the holder can always take its lock
     again, whatever the depth -/
@@ -216,48 +250,112 @@ theorem holder_can_reacquire_client (scope : LockScope) (s : State) (t d : Nat) 
 
 /-! ### the whole property as one statement -/
 
-/-- the property for a lock discipline and a client: on every run, mutual exclusion, contiguous frames, own replies -/
-def Serialised (scope : LockScope) (connected : Bool) : Prop :=
+/-- safety: on every run, mutual exclusion, contiguous frames, and every caller is handed its own reply or (refused
+    connection) the connection exception — never somebody else's reply -/
+def Serialised (scope : LockScope) (connected : Bool) (cok : Nat → Bool) : Prop :=
   ∀ (reqs : Nat → List Req) (sched : List Nat),
-    Spec.Exclusive (runSched scope (init reqs connected) sched) ∧
-    Spec.contiguous (runSched scope (init reqs connected) sched).wire = true ∧
-    ∀ t, ∀ x ∈ ((runSched scope (init reqs connected) sched).threads t).results, Spec.OwnReply x
+    Spec.Exclusive (runSched scope (init reqs connected cok) sched) ∧
+    Spec.contiguous (runSched scope (init reqs connected cok) sched).wire = true ∧
+    ∀ t, ∀ x ∈ ((runSched scope (init reqs connected cok) sched).threads t).results, Spec.Answered cok x
 
-/-- the full statement of C15: the shipped discipline serialises whatever the state of the client when the threads
-    start (false before the repair of connect-outside-lock: see `connect_race_counterexample`) -/
-theorem C15_full : ∀ connected, Serialised .whole connected :=
-  fun connected reqs sched => ⟨mutual_exclusion _ rfl reqs connected sched,
-    frames_contiguous _ rfl reqs connected sched, fun t => own_reply _ rfl reqs connected sched t⟩
+/-- liveness: no caller blocks forever — in every reachable state somebody can move unless everybody has finished,
+    and every fair schedule (rounds, see `fair_schedule_finishes`) ends with every thread finished -/
+def NeverStuck (scope : LockScope) (connected : Bool) (cok : Nat → Bool) : Prop :=
+  ∀ (reqs : Nat → List Req),
+    (∀ (sched : List Nat) (t : Nat), ((runSched scope (init reqs connected cok) sched).threads t).done = false →
+      ∃ u, runnable scope (runSched scope (init reqs connected cok) sched) u = true) ∧
+    (∀ (n : Nat), (∀ t, n ≤ t → reqs t = []) → ∀ rounds : List (List Nat), (∀ r ∈ rounds, Covers n r) →
+      totalWork scope (init reqs connected cok) n ≤ rounds.length →
+      ∀ t, ((runSched scope (init reqs connected cok) rounds.flatten).threads t).done = true)
+
+/-- the full statement of C15: under the shipped discipline, whatever the state of the client when the threads start
+    and whichever connection attempts are refused, callers are serialised, each gets its own reply or the connection
+    exception, and nobody blocks forever -/
+theorem C15_full : ∀ connected cok, Serialised .whole connected cok ∧ NeverStuck .whole connected cok :=
+  fun connected cok =>
+    ⟨fun reqs sched => ⟨mutual_exclusion _ rfl reqs connected cok sched,
+        frames_contiguous _ rfl reqs connected cok sched,
+        fun t => own_reply_or_refused _ rfl reqs connected cok sched t⟩,
+     fun reqs => ⟨fun sched t h => no_deadlock _ rfl reqs connected cok sched t h,
+        fun n hn rounds hc hk t => (fair_schedule_finishes _ rfl reqs connected cok n hn rounds hc hk t).1⟩⟩
 
 /-- the discipline the source has serialises every client -/
-theorem source_serialised : ∀ sc, sourceScope = some sc → ∀ connected, Serialised sc connected := by
+theorem source_serialised : ∀ sc, sourceScope = some sc →
+    ∀ connected cok, Serialised sc connected cok ∧ NeverStuck sc connected cok := by
   intro sc h
   rw [source_scope_is_whole.2 sc h]
   exact C15_full
 
-/-! ### disciplines that do not serialise (named mutants) -/
+/-! ### disciplines that do not have the property (named mutants) -/
+
+def allOk : Nat → Bool := fun _ => true
 
 /-- two threads, different units, different quantities -/
 def cexReqs : Nat → List Req := fun i =>
   if i = 0 then [⟨1, 100, 2, 0⟩] else if i = 1 then [⟨2, 200, 3, 0⟩] else []
 
-/-- the code before the repair (`connectOutside`: `connect()` before any lock is taken), cold client.  Both threads
-    (after turning to their request) find no socket in the unlocked connect check; thread 0 opens connection 0, takes
-    the manager lock, sends; thread 1's connection attempt completes (connection 1 replaces `client.socket`);
-    thread 0 reads from connection 1, where nothing arrives -/
-def cexRace : List Nat := [0, 1, 0, 1, 0, 0, 0, 0, 0, 0, 1, 0, 0, 0]
+/-- `leakOnFail`: the client lock is taken with an explicit acquire and the connect sits between the acquire and the
+    `try … finally: release`.  The first connection attempt is refused: thread 0 correctly gets the connection
+    exception — and keeps the client lock for ever.  (next request, acquire, connect check, open) -/
+def cexLeak : List Nat := [0, 0, 0, 0, 1, 1]
+
+theorem lock_leak_counterexample :
+    let s := runSched .leakOnFail (init cexReqs false (fun k => k != 0)) cexLeak
+    (s.threads 0).results = [(⟨1, 100, 2, 0⟩, 0, .raised .modbusExc)] ∧
+    (s.threads 0).done = true ∧ (s.threads 1).done = false ∧
+    s.locks clientKey = some (0, 1) ∧
+    runnable .leakOnFail s 0 = false ∧ runnable .leakOnFail s 1 = false := by decide +kernel
+
+/-- a deadlock: thread 1 has a request left and nobody can ever move again -/
+theorem leakOnFail_deadlocks : ¬ NeverStuck .leakOnFail false (fun k => k != 0) := by
+  intro h
+  obtain ⟨u, hu⟩ := (h cexReqs).1 cexLeak 1 lock_leak_counterexample.2.2.1
+  have h0 := lock_leak_counterexample.2.2.2.2.1
+  have h1 := lock_leak_counterexample.2.2.2.2.2
+  by_cases e0 : u = 0
+  · subst e0; rw [h0] at hu; cases hu
+  · by_cases e1 : u = 1
+    · subst e1; rw [h1] at hu; cases hu
+    · have : runnable .leakOnFail (runSched .leakOnFail (init cexReqs false (fun k => k != 0)) cexLeak) u = false := by
+        apply done_not_runnable
+        have hr : ((runSched .leakOnFail (init cexReqs false (fun k => k != 0)) cexLeak).threads u) =
+            ((init cexReqs false (fun k => k != 0)).threads u) := by
+          simp only [cexLeak, runSched]
+          repeat rw [step_threads_other _ _ _ _ (by first | exact e0 | exact e1)]
+        rw [hr]
+        simp [init, Thread.done, cexReqs, e0, e1]
+      rw [this] at hu; cases hu
+
+/-- the same world and schedule under the shipped discipline: the lock is given back, thread 1 can go on, and with
+    the second attempt accepted it gets its own reply -/
+theorem lock_leak_repaired :
+    runnable .whole (runSched .whole (init cexReqs false (fun k => k != 0)) (cexLeak ++ [0])) 1 = true ∧
+    ((runSched .whole (init cexReqs false (fun k => k != 0))
+        (cexLeak ++ [0] ++ List.replicate 14 1)).threads 1).results =
+      [(⟨2, 200, 3, 0⟩, 1, .ok 1 2 (.regs [200, 201, 202]))] := by decide +kernel
+
+/-- the code before the repair of connect-outside-lock (`connectOutside`: `connect()` before any lock is taken), cold
+    client.  Both threads (after turning to their request) find no socket in the unlocked connect check; thread 0
+    opens connection 0, takes the manager lock, flushes, sends; thread 1's connection attempt completes (connection 1
+    replaces `client.socket`); thread 0 reads from connection 1, where nothing arrives -/
+def cexRace : List Nat := [0, 1, 0, 1, 0, 0, 0, 0, 0, 0, 0, 1, 0, 0, 0]
 
 /-- the repaired defect connect-outside-lock: the peer answered thread 0's request (the reply sits unread on
     connection 0), yet `execute` handed thread 0 a `ModbusIOException`.  Transactions were never concurrent and the
     frame is whole. -/
 theorem connect_race_counterexample :
-    ((runSched .connectOutside (init cexReqs false) cexRace).threads 0).results =
+    ((runSched .connectOutside (init cexReqs false allOk) cexRace).threads 0).results =
       [(⟨1, 100, 2, 0⟩, 1, .err .modbusIO)] ∧
-    (runSched .connectOutside (init cexReqs false) cexRace).stream 0 = replyOf 1 ⟨1, 100, 2, 0⟩ ∧
-    (runSched .connectOutside (init cexReqs false) cexRace).sock = none ∧
-    ¬ Spec.OwnReply (⟨1, 100, 2, 0⟩, 1, .err .modbusIO) := by decide +kernel
+    (runSched .connectOutside (init cexReqs false allOk) cexRace).stream 0 = replyOf 1 ⟨1, 100, 2, 0⟩ ∧
+    (runSched .connectOutside (init cexReqs false allOk) cexRace).sock = none ∧
+    ¬ Spec.Answered allOk (⟨1, 100, 2, 0⟩, 1, .err .modbusIO) := by
+  refine ⟨by decide +kernel, by decide +kernel, by decide +kernel, ?_⟩
+  intro h
+  cases h with
+  | inl h => exact absurd h (by decide)
+  | inr h => exact absurd h.1 (by decide)
 
-theorem connectOutside_not_serialised : ¬ Serialised .connectOutside false := by
+theorem connectOutside_not_serialised : ¬ Serialised .connectOutside false allOk := by
   intro h
   have h1 := (h cexReqs cexRace).2.2 0 (⟨1, 100, 2, 0⟩, 1, .err .modbusIO)
     (by rw [connect_race_counterexample.1]; exact List.mem_singleton.2 rfl)
@@ -265,84 +363,89 @@ theorem connectOutside_not_serialised : ¬ Serialised .connectOutside false := b
 
 /-- the very same schedule under the shipped discipline: thread 1 is parked on the client lock, nothing is lost -/
 theorem connect_race_repaired :
-    ((runSched .whole (init cexReqs false) (cexRace ++ [0, 0, 0, 0])).threads 0).results =
+    ((runSched .whole (init cexReqs false allOk) (cexRace ++ [0, 0, 0, 0])).threads 0).results =
       [(⟨1, 100, 2, 0⟩, 1, .ok 1 1 (.regs [100, 101]))] := by decide +kernel
 
 theorem not_exclusive_of (s : State) (h0 : (s.threads 0).inFlight = true) (h1 : (s.threads 1).inFlight = true) :
     ¬ Spec.Exclusive s := fun h => absurd (h 0 1 h0 h1) (by decide)
 
 /-- (client connected) both threads up to and including their first write: next request, connect check, acquire,
-    tid, connect, send₁ -/
-def cexInterleaved : List Nat := [0, 0, 0, 0, 0, 0, 1, 1, 1, 1, 1, 1]
+    tid, connect, flush, send₁ -/
+def cexInterleaved : List Nat := [0, 0, 0, 0, 0, 0, 0, 1, 1, 1, 1, 1, 1, 1]
 
-/-- thread 0 sends its frame, thread 1 sends its frame, then thread 1 receives first -/
-def cexSwapped : List Nat := [0, 0, 0, 0, 0, 0, 0, 1, 1, 1, 1, 1, 1, 1, 1, 1, 1, 0, 0, 0]
+/-- thread 0 sends its frame, then thread 1 runs a whole transaction up to its processing (its flush discards the reply
+    that is waiting for thread 0), then thread 0 receives -/
+def cexSwapped : List Nat := [0, 0, 0, 0, 0, 0, 0, 0, 1, 1, 1, 1, 1, 1, 1, 1, 1, 1, 1, 0, 0, 0]
 
-/-- without a lock there is no acquire step: next request, connect check, tid, connect, send₁ -/
-def cexInterleavedNone : List Nat := [0, 0, 0, 0, 0, 1, 1, 1, 1, 1]
-def cexSwappedNone : List Nat := [0, 0, 0, 0, 0, 0, 1, 1, 1, 1, 1, 1, 1, 1, 1, 0, 0, 0]
+/-- without a lock there is no acquire step: next request, connect check, tid, connect, flush, send₁ -/
+def cexInterleavedNone : List Nat := [0, 0, 0, 0, 0, 0, 1, 1, 1, 1, 1, 1]
+def cexSwappedNone : List Nat := [0, 0, 0, 0, 0, 0, 0, 1, 1, 1, 1, 1, 1, 1, 1, 1, 1, 0, 0, 0]
 
-/-- no lock: the two headers are adjacent on the wire, both transactions are in flight, and when thread 1 receives
-    first it is handed thread 0's reply, which its framer drops (wrong unit): the reply is lost -/
+/-- no lock: the two headers are adjacent on the wire, both transactions are in flight; and when thread 1 transacts
+    while thread 0 waits for its reply, thread 1's `_flush_input` throws thread 0's reply away: the reply is lost -/
 theorem none_counterexample :
-    ((runSched .none (init cexReqs true) cexInterleavedNone).threads 0).inFlight = true ∧
-    ((runSched .none (init cexReqs true) cexInterleavedNone).threads 1).inFlight = true ∧
-    Spec.contiguous (runSched .none (init cexReqs true) cexInterleavedNone).wire = false ∧
-    ((runSched .none (init cexReqs true) cexSwappedNone).threads 1).results =
-      [(⟨2, 200, 3, 0⟩, 2, .err .modbusIO)] := by decide +kernel
+    ((runSched .none (init cexReqs true allOk) cexInterleavedNone).threads 0).inFlight = true ∧
+    ((runSched .none (init cexReqs true allOk) cexInterleavedNone).threads 1).inFlight = true ∧
+    Spec.contiguous (runSched .none (init cexReqs true allOk) cexInterleavedNone).wire = false ∧
+    ((runSched .none (init cexReqs true allOk) cexSwappedNone).threads 0).results =
+      [(⟨1, 100, 2, 0⟩, 1, .err .modbusIO)] := by decide +kernel
 
-theorem none_not_serialised : ¬ Serialised .none true := fun h =>
+theorem none_not_serialised : ¬ Serialised .none true allOk := fun h =>
   not_exclusive_of _ none_counterexample.1 none_counterexample.2.1 (h cexReqs cexInterleavedNone).1
 
-/-- one manager lock per unit id and no client lock (the seeded change on the code before the repair): two threads
-    addressing different units hold different locks -/
+/-- one manager lock per unit id and no client lock (the seeded change C15-01 on the code before the repair): two
+    threads addressing different units hold different locks -/
 theorem perKey_counterexample :
-    ((runSched (.perKey (·.unit)) (init cexReqs true) cexInterleaved).threads 0).inFlight = true ∧
-    ((runSched (.perKey (·.unit)) (init cexReqs true) cexInterleaved).threads 1).inFlight = true ∧
-    Spec.contiguous (runSched (.perKey (·.unit)) (init cexReqs true) cexInterleaved).wire = false ∧
-    -- the reply to thread 0's request reaches thread 1, whose framer drops it (wrong unit): the reply is lost
-    ((runSched (.perKey (·.unit)) (init cexReqs true) cexSwapped).threads 1).results =
-      [(⟨2, 200, 3, 0⟩, 2, .err .modbusIO)] := by decide +kernel
+    ((runSched (.perKey (·.unit)) (init cexReqs true allOk) cexInterleaved).threads 0).inFlight = true ∧
+    ((runSched (.perKey (·.unit)) (init cexReqs true allOk) cexInterleaved).threads 1).inFlight = true ∧
+    Spec.contiguous (runSched (.perKey (·.unit)) (init cexReqs true allOk) cexInterleaved).wire = false ∧
+    -- thread 1 transacts while thread 0 waits: its flush discards thread 0's reply, thread 0 gets an error object
+    ((runSched (.perKey (·.unit)) (init cexReqs true allOk) cexSwapped).threads 0).results =
+      [(⟨1, 100, 2, 0⟩, 1, .err .modbusIO)] := by decide +kernel
 
-theorem perKey_not_serialised : ¬ Serialised (.perKey (·.unit)) true := fun h =>
+theorem perKey_not_serialised : ¬ Serialised (.perKey (·.unit)) true allOk := fun h =>
   not_exclusive_of _ perKey_counterexample.1 perKey_counterexample.2.1 (h cexReqs cexInterleaved).1
 
-/-- units 0 and 255 are different keys but both accept any unit id in the reply: the replies are SWAPPED — each
-    caller is handed the registers, the unit and the transaction id of the other caller's request -/
+/-- units 0 and 255 are different keys and both accept any unit id in a reply.  Thread 0 is pre-empted between the two
+    writes of its frame, thread 1 flushes, thread 0 completes its frame, thread 1 sends and receives first: it reads
+    thread 0's reply.  Since the repair "the sync client returns only a reply that answers the request" that foreign
+    reply (other transaction id) is dropped instead of being handed over: thread 1 gets an error object although the
+    peer answered its request (before that repair it was handed thread 0's registers) -/
 def cexReqsAny : Nat → List Req := fun i =>
   if i = 0 then [⟨0, 100, 2, 0⟩] else if i = 1 then [⟨255, 200, 3, 0⟩] else []
 
-theorem perKey_swap_counterexample :
-    ((runSched (.perKey (·.unit)) (init cexReqsAny true) cexSwapped).threads 1).results =
-      [(⟨255, 200, 3, 0⟩, 2, .ok 1 0 (.regs [100, 101]))] ∧
-    ((runSched (.perKey (·.unit)) (init cexReqsAny true) cexSwapped).threads 0).results =
-      [(⟨0, 100, 2, 0⟩, 1, .ok 2 255 (.regs [200, 201, 202]))] ∧
-    ¬ Spec.OwnReply (⟨255, 200, 3, 0⟩, 2, .ok 1 0 (.regs [100, 101])) := by decide +kernel
+def cexForeign : List Nat := [0, 0, 0, 0, 0, 0, 0, 1, 1, 1, 1, 1, 1, 0, 1, 1, 1, 1, 1]
+
+theorem perKey_foreign_reply_counterexample :
+    ((runSched (.perKey (·.unit)) (init cexReqsAny true allOk) cexForeign).threads 1).results =
+      [(⟨255, 200, 3, 0⟩, 2, .err .modbusIO)] ∧
+    ¬ Spec.OwnReply (⟨255, 200, 3, 0⟩, 2, .err .modbusIO) := by decide +kernel
 
 /-- a manager lock around the send only keeps the frames whole but not the transactions apart -/
-def cexSendOnly : List Nat := [0, 0, 0, 0, 0, 0, 0, 0, 0, 1, 1, 1, 1, 1, 1]
+def cexSendOnly : List Nat := [0, 0, 0, 0, 0, 0, 0, 0, 0, 1, 1, 1, 1, 1, 1, 1]
 
 theorem sendOnly_counterexample :
-    ((runSched .sendOnly (init cexReqs true) cexSendOnly).threads 0).inFlight = true ∧
-    ((runSched .sendOnly (init cexReqs true) cexSendOnly).threads 1).inFlight = true := by decide +kernel
+    ((runSched .sendOnly (init cexReqs true allOk) cexSendOnly).threads 0).inFlight = true ∧
+    ((runSched .sendOnly (init cexReqs true allOk) cexSendOnly).threads 1).inFlight = true := by decide +kernel
 
-theorem sendOnly_not_serialised : ¬ Serialised .sendOnly true := fun h =>
+theorem sendOnly_not_serialised : ¬ Serialised .sendOnly true allOk := fun h =>
   not_exclusive_of _ sendOnly_counterexample.1 sendOnly_counterexample.2 (h cexReqs cexSendOnly).1
 
 /-! ### non-vacuity -/
 
-/-- a run under the shipped discipline on a COLD client in which a thread is parked on the client lock, then everybody
-    finishes with own replies over the one connection -/
+/-- a run under the shipped discipline on a COLD client whose first connection attempt is refused: thread 0 gets the
+    connection exception, thread 1 (parked on the client lock meanwhile) connects and gets its own reply over the one
+    connection -/
 example :
-    let s := runSched .whole (init cexReqs false) (List.replicate 14 0 ++ List.replicate 13 1)
-    runnable .whole (runSched .whole (init cexReqs false) [0, 0, 1]) 1 = false ∧
+    let s := runSched .whole (init cexReqs false (fun k => k != 0)) (List.replicate 5 0 ++ List.replicate 15 1)
+    runnable .whole (runSched .whole (init cexReqs false (fun k => k != 0)) [0, 0, 1]) 1 = false ∧
     (s.threads 0).done = true ∧ (s.threads 1).done = true ∧ s.sock = some 0 ∧ s.nextConn = 1 ∧
-    (s.threads 0).results = [(⟨1, 100, 2, 0⟩, 1, .ok 1 1 (.regs [100, 101]))] ∧
-    (s.threads 1).results = [(⟨2, 200, 3, 0⟩, 2, .ok 2 2 (.regs [200, 201, 202]))] := by decide +kernel
+    (s.threads 0).results = [(⟨1, 100, 2, 0⟩, 0, .raised .modbusExc)] ∧
+    (s.threads 1).results = [(⟨2, 200, 3, 0⟩, 1, .ok 1 2 (.regs [200, 201, 202]))] := by decide +kernel
 
 /-- the hypotheses of `fair_schedule_finishes` are satisfiable: round robin, as many rounds as operations -/
-example : (∀ t, 2 ≤ t → cexReqs t = []) ∧ totalWork .whole (init cexReqs false) 2 ≤ 40 ∧
-    (∀ r ∈ List.replicate 40 [0, 1], Covers 2 r) := by
+example : (∀ t, 2 ≤ t → cexReqs t = []) ∧ totalWork .whole (init cexReqs false allOk) 2 ≤ 50 ∧
+    (∀ r ∈ List.replicate 50 [0, 1], Covers 2 r) := by
   refine ⟨?_, by decide, ?_⟩
   · intro t ht
     have h0 : ¬ t = 0 := by omega
